@@ -44,7 +44,9 @@ def check_prog(ctx, r, prog, n):
                         data, decho = rng.choice([None, b64(rand_bytes(rng))]), None
                     result = {"ok": {"events": events, "data": data, "msg_responses": mr}}
                 else:
-                    text = rng.choice(["boom", "", "codespace: wasm, code: 5", "with \"quote\""]) + str(rng.randrange(100))
+                    # error texts are forwarded verbatim, also ones that look like a rendered StdError
+                    text = rng.choice(["boom", "", "codespace: wasm, code: 5", "with \"quote\"", "Generic error: Failed as requested ", "Generic error: Generic error: x",
+                                       " leading space", "Error parsing into type x: y "]) + str(rng.randrange(100))
                     result = {"error": text}
                 rep = {"id": ids[name], "payload": payload, "gas_used": gas, "result": result}
                 # expected
